@@ -69,9 +69,10 @@ func runC05(res *hx.Result, rng *hx.Rng, tier string, outdir string) {
 		fmt.Fprintln(os.Stderr, "C05:", err)
 		os.Exit(1)
 	}
-	nPlain, nHostile := 10, 8
+	// the hostile stream walks through every identifier class in turn
+	nPlain, nHostile := 14, len(c05.HostileClasses)
 	if tier == "thorough" {
-		nPlain, nHostile = 200, 100
+		nPlain, nHostile = 210, 6*len(c05.HostileClasses)
 	}
 	sw := c05probes(res, env)
 	var jobs []*c05job
@@ -80,9 +81,6 @@ func runC05(res *hx.Result, rng *hx.Rng, tier string, outdir string) {
 	}
 	for i := 0; i < nHostile; i++ {
 		class := c05.HostileClasses[i%len(c05.HostileClasses)]
-		if tier != "thorough" {
-			class = c05.HostileClasses[rng.Intn(len(c05.HostileClasses))]
-		}
 		jobs = append(jobs, &c05job{id: fmt.Sprintf("h%03d", i), pkg: c05.GenHostile(rng, fmt.Sprintf("hk%03d", i), class), seed: rng.U64()})
 	}
 	sem := make(chan struct{}, 8)
